@@ -1108,3 +1108,39 @@ def _mk_evolved(family):
 
 for _f in ('xml', 'soap11'):
     _mk_evolved(_f)
+
+
+
+@obligation('C06.compiles.every_primitive', targets=['spyne.interface.xml_schema._base:XmlSchema.build_validation_schema',
+                                                     'spyne.interface.xml_schema.model:unicode_get_restriction_tag'],
+            bounded="one class with a member (and an array, and an attribute where possible) of every primitive model "
+                    "exported by spyne.model.primitive (found by introspection), three protocols",
+            desc="the schema generated for an application that uses every primitive model of the package compiles: every "
+                 "pattern, facet and base type the primitives publish is valid XML Schema")
+def compiles_every_primitive(c):
+    import spyne.model.primitive as P
+    from spyne.model import SimpleModel
+    skip = ('AnyXml', 'AnyHtml', 'AnyDict', 'Any')
+    prims = [(k, v) for k, v in sorted(vars(P).items()) if isinstance(v, type) and issubclass(v, SimpleModel) and
+             hasattr(v, 'Attributes') and k not in skip]
+    family = c.choose(['xml', 'soap11', 'soap12'], 'protocol')
+    ti = []
+    GEO = ('Point', 'Line', 'LineString', 'Polygon', 'MultiPoint', 'MultiLine', 'MultiLineString', 'MultiPolygon')
+    for k, v in prims:
+        if k in GEO:
+            v = v(2)            # the geometry types are declared with their number of dimensions
+        ti.append(('m_' + k, v))
+        ti.append(('a_' + k, Array(v)))
+    AllPrims = type(ComplexModel)('AllPrims', (ComplexModel,), {'__namespace__': TNS, '_type_info': ti})
+
+    def f(ctx, a):
+        return a
+    Svc = type(ServiceBase)('PSvc', (ServiceBase,), {'f': rpc(AllPrims, _returns=AllPrims)(f)})
+    inp, outp = _proto(family, 'lxml')
+    out = c.run(Application, [Svc], TNS, name='VApp', in_protocol=inp, out_protocol=outp)
+    c.check('application_with_schema_validation_builds', out.returned, detail=repr(out)[:600])
+    if out.returned:
+        doc = XmlSchema(out.value.interface)
+        o2 = c.run(doc.build_validation_schema)
+        c.check('schema_compiles', o2.returned and doc.validation_schema is not None, detail=repr(o2)[:800])
+    c.check('primitives_found', len(prims) >= 50, detail=len(prims))
